@@ -1,6 +1,7 @@
 ---------------------------- MODULE SeqBasicsTrace ----------------------------
 (* Trace validation for the families "orf" and "seqbasics" (C20).            *)
-(*  orf:       run.cfg = [starts, stops, min_len] = one Finder; events        *)
+(*  orf:       run.cfg = [starts, stops, min_len, cloned] = one Finder (or a   *)
+(*             clone of it); the codon sets may overlap; events               *)
 (*             find_all(t) -> v = list of [start,end,offset] in iterator order*)
 (*  seqbasics: run.cfg.kind in                                                *)
 (*     "compl" (cfg.mol = "dna"|"rna"): table -> 256 values; revcomp(t)       *)
@@ -23,8 +24,17 @@ Bool(b) == IF b THEN 1 ELSE 0
 
 ExplainsOrf(cfg, c, r) ==
     /\ r.st = "ok"
-    /\ c.op = "find_all"
-    /\ OrfReportOk(c.a.t, SetOf(cfg.starts), SetOf(cfg.stops), cfg.min_len, r.v)
+    /\ CASE c.op = "find_all" ->
+              OrfReportOk(c.a.t, SetOf(cfg.starts), SetOf(cfg.stops), cfg.min_len, r.v)
+         \* the iterator forked (cloned) after every number of items: h = the items taken before the
+         \* fork, a / b = everything the original / the clone yields afterwards; each continuation
+         \* must complete a correct report
+         [] c.op = "forks" ->
+              LET fr == FramesFast(c.a.t, SetOf(cfg.starts), SetOf(cfg.stops)) IN
+              \A i \in 1..Len(r.v) :
+                  /\ OrfReportOkFr(fr, cfg.min_len, r.v[i].h \o r.v[i].a)
+                  /\ OrfReportOkFr(fr, cfg.min_len, r.v[i].h \o r.v[i].b)
+         [] OTHER -> FALSE
 
 Pairs(mol) == IF mol = "rna" THEN RnaPairs ELSE DnaPairs
 
